@@ -90,8 +90,8 @@ def draw_orbit(rng: random.Random, regime: str | None = None, emax: float = 0.7)
         a = 42164.0 + rng.uniform(-50, 50)
         e = rng.uniform(0, 0.01)
     elif regime == "xgeo":
-        a = rng.uniform(45000, 60000)
-        e = rng.uniform(0, 0.1)
+        a = rng.uniform(43000, 49000)
+        e = rng.uniform(0, 0.04)
     else:
         e = rng.uniform(0.3, emax)
         rp = RE + rng.uniform(500, 3000)
@@ -196,4 +196,197 @@ def base_config(start: dt.datetime, step: int, nsteps: int, engines: list[dict],
         "engines": engines,
         "events": events or [],
     }
+    return cfg
+
+
+# ---------------------------------------------------------------------------------------------
+# inverse-geometry placement (generation only; may use repo transforms)
+# ---------------------------------------------------------------------------------------------
+def _lla_to_ecef(lat_deg, lon_deg, alt):
+    from .oracles import geom
+
+    return geom.lla_to_ecef(math.radians(lat_deg), math.radians(lon_deg), alt)
+
+
+def place_over_site(rng: random.Random, site: dict, when: dt.datetime, t_back: float, az_deg: float, el_deg: float, rng_km: float,
+                    motion: str = "corotate"):
+    """ECI state at scenario start of a target that, ``t_back`` seconds later (at ``when``), is seen
+    from the ground ``site`` at the given azimuth / elevation / range (two-body back-propagation)."""
+    import numpy as np
+
+    from resonaate.physics.transforms.methods import ecef2eci
+
+    from .oracles import geom, kepler
+
+    lat, lon = math.radians(site["latitude"]), math.radians(site["longitude"])
+    site_ecef = geom.lla_to_ecef(lat, lon, site["altitude"])
+    az, el = math.radians(az_deg), math.radians(el_deg)
+    sez = np.array([-math.cos(el) * math.cos(az), math.cos(el) * math.sin(az), math.sin(el)]) * rng_km
+    tgt_ecef = site_ecef + geom.sez_basis(lat, lon).T @ sez
+    r_eci = ecef2eci(np.concatenate([tgt_ecef, np.zeros(3)]), when)[:3]
+    pole = ecef2eci(np.array([0.0, 0.0, 1.0, 0, 0, 0]), when)[:3]
+    pole = pole / np.linalg.norm(pole)
+    r = float(np.linalg.norm(r_eci))
+    east = np.cross(pole, r_eci)
+    if np.linalg.norm(east) < 1e-6:
+        east = np.cross(np.array([1.0, 0, 0]), r_eci)
+    east = east / np.linalg.norm(east)
+    north = np.cross(r_eci / r, east)
+    speed = math.sqrt(kepler.MU / r)
+    if motion == "corotate":
+        tilt = math.radians(rng.uniform(-3, 3))
+    elif motion == "polar":
+        tilt = math.radians(rng.choice([90, -90]) + rng.uniform(-10, 10))
+    else:
+        tilt = rng.uniform(0, 2 * math.pi)
+    v_eci = speed * (math.cos(tilt) * east + math.sin(tilt) * north)
+    st = np.concatenate([r_eci, v_eci])
+    if t_back:
+        st = kepler.propagate(st, -t_back)
+    return st
+
+
+def draw_sensor_block(rng: random.Random, kind: str, coarse: bool, narrow_fov: bool = False, masks: bool = True, slow_slew: bool = False) -> dict:
+    over = {}
+    if masks and rng.random() < 0.5:
+        m = rng.random()
+        if m < 0.35:
+            lo = rng.uniform(200, 359)
+            hi = rng.uniform(0, 160)  # wraps through north
+        elif m < 0.7:
+            lo = rng.uniform(0, 180)
+            hi = rng.uniform(lo + 5, 359.9)
+        else:
+            lo, hi = 0.0, 359.9999
+        over["azimuth_range"] = [lo, hi]
+        over["elevation_range"] = [rng.choice([0.5, 1.0, 5.0, 10.0, 20.0]), rng.choice([89.9999, 85.0, 70.0, 60.0])]
+    if narrow_fov:
+        over["field_of_view"] = {"fov_shape": "conic", "cone_angle": rng.choice([0.02, 0.05, 0.1])}
+    else:
+        f = rng.random()
+        if f < 0.35:
+            over["field_of_view"] = {"fov_shape": "conic", "cone_angle": rng.choice([0.5, 1.0, 5.0, 15.0, 40.0])}
+        elif f < 0.8:
+            over["field_of_view"] = {"fov_shape": "rectangular", "azimuth_angle": rng.choice([0.5, 1.0, 5.0, 20.0, 60.0]),
+                                     "elevation_angle": rng.choice([0.5, 1.0, 5.0, 20.0])}
+    if slow_slew or rng.random() < 0.25:
+        over["slew_rate"] = rng.choice([0.001, 0.01, 0.05, 0.2, 1.0])
+    if rng.random() < 0.2:
+        over["maximum_range"] = rng.choice([2000.0, 20000.0, 40000.0])
+    if rng.random() < 0.1:
+        over["minimum_range"] = rng.choice([500.0, 5000.0])
+    if kind != "optical" and rng.random() < 0.25:
+        over["tx_power"] = rng.choice([1e3, 1e5, 3e6])
+        over["aperture_diameter"] = rng.choice([5.0, 20.0])
+    if kind == "optical" and rng.random() < 0.3:
+        over["detectable_vismag"] = rng.choice([10.0, 14.0, 18.0])
+    return sensor_block(kind, coarse=coarse, **over)
+
+
+def network_case(rng: random.Random, *, nsteps=None, step=None, kinds=("optical", "radar", "adv_radar"), n_sensors=None, n_targets=None,
+                 coarse=None, narrow_fov=False, decision=None, reward=None, model=None, two_engines_p=0.2, space_sensor_p=0.15,
+                 geo_p=0.6, start=None, out_mult=None, estimation=None, noise=None, truth_only=False, background=None,
+                 placed_p=0.85, masks=True, integrator=None, events=None, slow_slew=False) -> dict:
+    """A complete small scenario: 1-4 sensors, 1-5 targets placed by inverse geometry."""
+    import numpy as np
+
+    step = step or rng.choice([30, 60, 60, 120, 300, 300, 600])
+    nsteps = nsteps or rng.randrange(2, 5)
+    total = step * nsteps
+    start = start or draw_start(rng, EOP_FIRST, EOP_LAST - dt.timedelta(seconds=total + 2 * 86400), whole_minute_p=0.1)
+    n_sensors = n_sensors or rng.randrange(1, 5)
+    n_targets = n_targets or rng.randrange(1, 6)
+    coarse = rng.random() < 0.5 if coarse is None else coarse
+    model = model or ("two_body" if rng.random() < 0.8 else "special_perturbations")
+    dec = decision or rng.choice(["MunkresDecision", "MyopicNaiveGreedyDecision", "RandomDecision", "AllVisibleDecision"])
+    if dec == "AllVisibleDecision":
+        kinds = ("adv_radar",)
+    sensors, sites = [], []
+    for i in range(n_sensors):
+        kind = rng.choice(list(kinds))
+        blk = draw_sensor_block(rng, kind, coarse, narrow_fov=narrow_fov, masks=masks, slow_slew=slow_slew)
+        if rng.random() < space_sensor_p:
+            orb = draw_orbit(rng, rng.choice(["leo", "meo", "geo"]))
+            blk["elevation_range"] = [-89.9, 89.9]
+            sensors.append(space_sensor(60001 + i, orb["pos"], orb["vel"], blk))
+            sites.append(None)
+        else:
+            if sites and sites[0] is not None and rng.random() < 0.5:
+                b = sites[0]
+                lat = max(-89.0, min(89.0, b["latitude"] + rng.uniform(-0.05, 0.05)))
+                lon = b["longitude"] + rng.uniform(-0.05, 0.05)
+                lon = (lon + 180.0) % 360.0 - 180.0
+                alt = b["altitude"]
+            else:
+                lat, lon, alt = draw_site(rng)
+            sensors.append(ground_sensor(90001 + i, lat, lon, alt, blk))
+            sites.append({"latitude": lat, "longitude": lon, "altitude": alt})
+    ground = [s for s in sites if s is not None]
+    targets = []
+    for j in range(n_targets):
+        tid = 10001 + j
+        if ground and rng.random() < placed_p:
+            site = rng.choice(ground)
+            k = rng.randrange(0, nsteps + 1)
+            when = start + dt.timedelta(seconds=k * step)
+            azm = rng.random()
+            if azm < 0.25:
+                az = rng.choice([0.0, 359.99, 0.01, 180.0, 359.6, 0.4]) + rng.uniform(-0.3, 0.3)
+            else:
+                az = rng.uniform(0, 360)
+            az %= 360.0
+            el = rng.choice([rng.uniform(2, 88), rng.uniform(60, 89.5), rng.uniform(1, 12)])
+            if rng.random() < geo_p:
+                rkm = rng.uniform(35500, 41000)
+                motion = "corotate"
+            else:
+                rkm = rng.choice([rng.uniform(500, 3000), rng.uniform(8000, 25000)])
+                motion = rng.choice(["corotate", "polar", "any"])
+            st = place_over_site(rng, site, when, k * step, az, el, rkm, motion)
+            if np.linalg.norm(st[:3]) < RE + 150 or np.linalg.norm(st[:3]) > RE + 44000:
+                orb = draw_orbit(rng, "meo")
+                st = np.array(orb["pos"] + orb["vel"])
+            targets.append(eci_target(tid, st[:3], st[3:]))
+        else:
+            orb = draw_orbit(rng, emax=0.5)
+            targets.append(eci_target(tid, orb["pos"], orb["vel"]))
+    if reward is None:
+        rname = rng.choice(["SimpleSummationReward", "CostConstrainedReward", "CombinedReward"])
+        nm = {"SimpleSummationReward": rng.randrange(1, 4), "CostConstrainedReward": 3, "CombinedReward": 4}[rname]
+        if rname == "CostConstrainedReward":
+            mets = [rng.choice(["FisherInformation", "ShannonInformation", "KLDivergence"]), "LyapunovStability",
+                    rng.choice(["SlewDistanceMinimization", "SlewTimeMinimization", "SlewDistanceMaximization", "SlewTimeMaximization"])]
+            rng.shuffle(mets)
+        elif rname == "CombinedReward":
+            mets = [rng.choice(["FisherInformation", "ShannonInformation", "KLDivergence"]), "LyapunovStability",
+                    rng.choice(["SlewDistanceMinimization", "SlewTimeMinimization", "SlewDistanceMaximization", "SlewTimeMaximization"]), "TimeSinceObservation"]
+            rng.shuffle(mets)
+        else:
+            mets = rng.sample(METRICS, nm)
+        reward = {"name": rname, "metrics": [{"name": m} for m in mets]}
+    dextra = {"seed": rng.randrange(1, 2**31)} if dec == "RandomDecision" else None
+    engines = []
+    if n_sensors >= 2 and rng.random() < two_engines_p:
+        cut = rng.randrange(1, n_sensors)
+        t_a = targets if rng.random() < 0.5 or n_targets < 2 else targets[: max(1, n_targets // 2)]
+        t_b = targets if t_a is targets and rng.random() < 0.5 else targets[-max(1, n_targets // 2):]
+        engines.append(engine_block(1, sensors[:cut], t_a, dec, reward, dextra))
+        kinds_b = {s["sensor"]["type"] for s in sensors[cut:]}
+        dec_b = dec if dec != "AllVisibleDecision" or kinds_b == {"adv_radar"} else "MunkresDecision"
+        engines.append(engine_block(2, sensors[cut:], t_b, dec_b, reward, {"seed": rng.randrange(1, 2**31)} if dec_b == "RandomDecision" else None))
+    else:
+        engines.append(engine_block(1, sensors, targets, dec, reward, dextra))
+    est = estimation or estimation_block(dynamics=model if rng.random() < 0.8 else "two_body")
+    if noise is None:
+        big = coarse and rng.random() < 0.5
+        noise = {"init_position_std_km": rng.choice([1e-3, 1e-2, 0.1]) if not big else rng.choice([1.0, 5.0, 20.0]),
+                 "init_velocity_std_km_p_sec": rng.choice([1e-6, 1e-5, 1e-4]) if not big else rng.choice([1e-3, 5e-3]),
+                 "filter_noise_type": rng.choice(["continuous_white_noise", "discrete_white_noise", "simple_noise"]),
+                 "filter_noise_magnitude": rng.choice([3e-14, 1e-12, 1e-10]), "random_seed": rng.randrange(1, 2**31)}
+    cfg = base_config(start, step, nsteps, engines, out_step=step * (out_mult or rng.choice([1, 1, 1, 2])), model=model,
+                      integrator=integrator or rng.choice(["RK45", "RK45", "DOP853"]), truth_only=truth_only, estimation=est, events=events,
+                      background=rng.random() < 0.5 if background is None else background, noise=noise,
+                      geopotential={"model": rng.choice(["egm96.txt", "egm2008.txt", "GGM03S.txt", "jgm3.txt"]), "degree": rng.choice([0, 2, 4]), "order": rng.choice([0, 2, 4])},
+                      perturbations={"third_bodies": rng.sample(["sun", "moon"], rng.randrange(0, 3)), "solar_radiation_pressure": rng.random() < 0.3,
+                                     "general_relativity": rng.random() < 0.2})
     return cfg
